@@ -769,7 +769,7 @@ class DeclableMatcher:
 		tokens = via.tokens
 		in_constructor = method_name == '__init__'
 		in_decl_var = elems[-3] in ['assign', 'anno_assign'] and elems[-2] == 'assign_namelist'
-		is_property = tokens.startswith('self') and DSN.elem_counts(tokens) == 2
+		is_property = DSN.elem_counts(tokens) == 2 and DSN.elements(tokens)[0] == 'self'
 		is_receiver = via_full_path.last[1] in [0, -1]  # 代入式の左辺が対象
 		return in_constructor and in_decl_var and is_property and is_receiver
 
